@@ -111,6 +111,113 @@ theorem forest_frameW (ncfg : Int) (acts : Event → List Action) (hk : KindsOK 
     simp only [h1]
     exact ⟨this.1, h2.append this.2⟩
 
+/-! the same induction under the stricter stacking hypothesis, which also yields *where* the call-opened context
+    completes (cf. `inv_frame_strict`) -/
+
+mutual
+theorem inv_frame_strictW (ncfg : Int) (acts : Event → List Action) (hk : KindsOK acts) (i : Inv) (p : List Nat)
+    (stk : List Ctx) (pend : List Key) (hn : i.NoClashW (opensAt ncfg acts) p pend)
+    (hs : i.NoStackStrict (opensAt ncfg acts) p) (hd : Within stk pend) :
+    (srun ncfg acts stk (i.flatten p)).1 = stk ∧ Scoped (srun ncfg acts stk (i.flatten p)).2 ∧
+    (opensAt ncfg acts (i.callEvent p) = true →
+      Eff.closed (newCtx (cbsAt ncfg acts (i.callEvent p)) (i.callEvent p)) (i.firstExit p)
+        ∈ (srun ncfg acts stk (i.flatten p)).2) := by
+  match i with
+  | .mk path func frame ln den body exit =>
+    simp only [Inv.NoClashW] at hn
+    simp only [Inv.NoStackStrict] at hs
+    have hf : ∀ c ∈ stk, ckey c ≠ (FrameInfo.mk path func frame p).key := by
+      intro c hc h
+      exact hn.1 (by have := hd c hc; rw [h] at this; exact this)
+    obtain ⟨o, w, hstep, ho, hw, hopen⟩ := step_call ncfg acts ⟨path, func, frame, p⟩ ln 0 den stk
+    have := items_frame_strictW ncfg acts hk body ⟨path, func, frame, p⟩ 0 exit _ false o stk pend hn.2 hs ho hf hd
+    simp only [Inv.flatten, srun_cons, hstep, Inv.callEvent, Inv.firstExit]
+    refine ⟨this.1, hw.append this.2.1, ?_⟩
+    intro hop
+    refine List.mem_append_right _ (this.2.2 _ hop ?_ ?_)
+    · rw [hopen hop]; exact List.mem_singleton.mpr rfl
+    · rfl
+
+theorem items_frame_strictW (ncfg : Int) (acts : Event → List Action) (hk : KindsOK acts) (its : Items)
+    (fi : FrameInfo) (k : Nat) (x : Exit) (m l : Bool) (o stk : List Ctx) (pend : List Key)
+    (hn : its.NoClashW (opensAt ncfg acts) fi k m l pend)
+    (hs : its.NoStackStrict (opensAt ncfg acts) fi k x m l) (ho : OwnStack fi m l o)
+    (hf : ∀ c ∈ stk, ckey c ≠ fi.key) (hd : Within stk pend) :
+    (srun ncfg acts (o ++ stk) (its.flatten fi k ++ x.events fi)).1 = stk ∧
+      Scoped (srun ncfg acts (o ++ stk) (its.flatten fi k ++ x.events fi)).2 ∧
+      (∀ M, m = true → M ∈ o → M.event = "call" →
+        Eff.closed M (its.firstExit fi x) ∈ (srun ncfg acts (o ++ stk) (its.flatten fi k ++ x.events fi)).2) := by
+  match its with
+  | .nil =>
+    simp only [Items.NoStackStrict] at hs
+    have hnil : o.tail = [] := ownstack_tail_nil ho hs
+    have hhead : ∀ M, m = true → M ∈ o → M.event = "call" → o.head? = some M :=
+      fun M hm hM _ => own_head ho hs M hm hM
+    match x with
+    | .ret n a =>
+      simp only [Items.flatten, Exit.events, List.nil_append, srun_cons, srun_nil,
+        step_exit ncfg acts hk fi "return" (Or.inl rfl) n a [] m l o stk ho hf, hnil, List.append_nil]
+      refine ⟨trivial, scoped_head ho _ _ _ _, ?_⟩
+      intro M hm hM hMe
+      simp [hhead M hm hM hMe, Items.firstExit]
+    | .raise n a =>
+      simp only [Items.flatten, Exit.events, List.nil_append, srun_cons, srun_nil,
+        step_exit ncfg acts hk fi "exception" (Or.inr rfl) n a [] m l o stk ho hf, hnil,
+        step_exit_none ncfg acts hk fi "return" (Or.inl rfl) n 0 [] stk hf,
+        List.append_nil, List.nil_append]
+      refine ⟨trivial, scoped_head ho _ _ _ _, ?_⟩
+      intro M hm hM hMe
+      simp [hhead M hm hM hMe, Items.firstExit]
+  | .line n den rest =>
+    simp only [Items.NoClashW] at hn
+    simp only [Items.NoStackStrict] at hs
+    obtain ⟨o', w, hstep, ho', hw, hkeep⟩ := step_line ncfg acts fi n 0 den m l o stk ho hf
+    have := items_frame_strictW ncfg acts hk rest fi k x m _ o' stk pend hn hs ho' hf hd
+    simp only [Items.flatten, List.cons_append, srun_cons, hstep, Items.firstExit]
+    refine ⟨this.1, hw.append this.2.1, ?_⟩
+    intro M hm hM hMe
+    exact List.mem_append_right _ (this.2.2 M hm (hkeep M hM hMe) hMe)
+  | .caught n a rest =>
+    simp only [Items.NoClashW] at hn
+    simp only [Items.NoStackStrict] at hs
+    rw [hs.1] at hn
+    have hnil : o.tail = [] := ownstack_tail_nil ho hs.1
+    have hhead : ∀ M, m = true → M ∈ o → M.event = "call" → o.head? = some M :=
+      fun M hm hM _ => own_head ho hs.1 M hm hM
+    have := items_frame_strictW ncfg acts hk rest fi k x false false [] stk pend hn hs.2 (by simp [OwnStack]) hf hd
+    simp only [Items.flatten, List.cons_append, srun_cons,
+      step_exit ncfg acts hk fi "exception" (Or.inr rfl) n a [] m l o stk ho hf, hnil, Items.firstExit]
+    refine ⟨this.1, (scoped_head ho _ _ _ _).append this.2.1, ?_⟩
+    intro M hm hM hMe
+    apply List.mem_append_left
+    simp [hhead M hm hM hMe]
+  | .call i rest =>
+    simp only [Items.NoClashW] at hn
+    simp only [Items.NoStackStrict] at hs
+    have hdi : Within (o ++ stk) (if m || l then (fileOf fi.path, fi.func) :: pend else pend) := by
+      intro c hc
+      rcases List.mem_append.mp hc with hc | hc
+      · by_cases hml : (m || l) = true
+        · rw [if_pos hml]
+          have := own_key ho c hc
+          rw [this]
+          exact List.mem_cons_self ..
+        · have : o = [] := ownstack_nil ho (by simpa using hml)
+          rw [this] at hc
+          simp at hc
+      · by_cases hml : (m || l) = true
+        · rw [if_pos hml]; exact List.mem_cons_of_mem _ (hd c hc)
+        · rw [if_neg hml]; exact hd c hc
+    obtain ⟨hi1, hi2, _⟩ := inv_frame_strictW ncfg acts hk i (fi.inv ++ [k]) (o ++ stk) _ hn.1 hs.1 hdi
+    have := items_frame_strictW ncfg acts hk rest fi (k + 1) x m l o stk pend hn.2 hs.2 ho hf hd
+    simp only [Items.flatten, List.append_assoc, Items.firstExit]
+    rw [srun_append]
+    simp only [hi1]
+    refine ⟨this.1, hi2.append this.2.1, ?_⟩
+    intro M hm hM hMe
+    exact List.mem_append_right _ (this.2.2 M hm hM hMe)
+end
+
 /-! `NoClash` implies `NoClashW` (for every `opens`): the new hypothesis is weaker -/
 mutual
 theorem noClash_imp_W (opens : Event → Bool) (i : Inv) (p : List Nat) (pend : List Key) (hn : i.NoClash)
